@@ -25,6 +25,9 @@ type scriptConn struct {
 	units    [][]byte // completed reply units
 	expired  bool     // watchdog fired
 	readErr  error    // Read fails with this error once the input is drained
+	scripted bool     // the whole client side is scripted up front (kind net)
+	later    [][]byte // scripted: chunks that arrive after a pause each (one timed-out Read per pause)
+	fin      string   // scripted: how the connection ends once drained: eof | idle | err
 }
 
 func newScriptConn() *scriptConn {
@@ -49,6 +52,20 @@ func (c *scriptConn) Read(p []byte) (int, error) {
 	} else if c.lineDone {
 		c.lineDone = false
 		c.boundary()
+	}
+	if c.scripted && len(c.in) == 0 && !c.closed {
+		// Deadlines are not clocks here: a read times out exactly where the script says the client pauses.
+		if len(c.later) > 0 {
+			c.in, c.later = c.later[0], c.later[1:]
+			return 0, timeoutErr{}
+		}
+		switch c.fin {
+		case "idle":
+			return 0, timeoutErr{}
+		case "err":
+			return 0, brokenErr{}
+		}
+		return 0, io.EOF
 	}
 	for len(c.in) == 0 && !c.eof && !c.closed && c.readErr == nil {
 		c.waiting = true
@@ -162,6 +179,24 @@ type timeoutErr struct{}
 func (timeoutErr) Error() string   { return "i/o timeout" }
 func (timeoutErr) Timeout() bool   { return true }
 func (timeoutErr) Temporary() bool { return true }
+
+// brokenErr is a read error that is neither EOF nor a timeout.
+type brokenErr struct{}
+
+func (brokenErr) Error() string   { return "read: connection reset by peer" }
+func (brokenErr) Timeout() bool   { return false }
+func (brokenErr) Temporary() bool { return false }
+
+// newScriptedConn: the client's bytes arrive in chunks separated by pauses longer than the idle
+// timeout; after the last chunk the connection ends by EOF, silence or a read error.
+func newScriptedConn(chunks [][]byte, fin string) *scriptConn {
+	c := newScriptConn()
+	c.scripted, c.fin = true, fin
+	if len(chunks) > 0 {
+		c.in, c.later = chunks[0], chunks[1:]
+	}
+	return c
+}
 
 // failRead makes the server's pending Read fail and waits for the session to end.
 func (c *scriptConn) failRead(err error) bool {
